@@ -37,6 +37,22 @@ impl AtomicU64 {
         self.point();
         self.inner.fetch_sub(v, o)
     }
+    pub fn fetch_and(&self, v: u64, o: Ordering) -> u64 {
+        self.point();
+        self.inner.fetch_and(v, o)
+    }
+    pub fn fetch_or(&self, v: u64, o: Ordering) -> u64 {
+        self.point();
+        self.inner.fetch_or(v, o)
+    }
+    pub fn fetch_xor(&self, v: u64, o: Ordering) -> u64 {
+        self.point();
+        self.inner.fetch_xor(v, o)
+    }
+    pub fn fetch_nand(&self, v: u64, o: Ordering) -> u64 {
+        self.point();
+        self.inner.fetch_nand(v, o)
+    }
     pub fn fetch_max(&self, v: u64, o: Ordering) -> u64 {
         self.point();
         self.inner.fetch_max(v, o)
@@ -82,5 +98,114 @@ impl AtomicU64 {
     /// Harness-side read without a scheduling point.
     pub fn peek(&self) -> u64 {
         self.inner.load(Ordering::SeqCst)
+    }
+}
+
+impl From<u64> for AtomicU64 {
+    fn from(v: u64) -> Self {
+        AtomicU64::new(v)
+    }
+}
+
+pub use std::sync::atomic::{compiler_fence, fence};
+
+/// The other integer / bool atomics, with the same scheduling point before every
+/// access, so that a change in /repo that switches the counter type still builds
+/// and is still scheduled.
+macro_rules! shim_atomic {
+    ($name:ident, $t:ty) => {
+        #[derive(Debug, Default)]
+        pub struct $name {
+            inner: std::sync::atomic::$name,
+        }
+        impl $name {
+            pub const fn new(v: $t) -> Self {
+                $name { inner: std::sync::atomic::$name::new(v) }
+            }
+            #[inline]
+            fn point(&self) {
+                crate::sched::atomic_point(self as *const _ as usize);
+            }
+            pub fn load(&self, o: Ordering) -> $t {
+                self.point();
+                self.inner.load(o)
+            }
+            pub fn store(&self, v: $t, o: Ordering) {
+                self.point();
+                self.inner.store(v, o)
+            }
+            pub fn swap(&self, v: $t, o: Ordering) -> $t {
+                self.point();
+                self.inner.swap(v, o)
+            }
+            pub fn compare_exchange(&self, c: $t, n: $t, s: Ordering, f: Ordering) -> Result<$t, $t> {
+                self.point();
+                self.inner.compare_exchange(c, n, s, f)
+            }
+            pub fn compare_exchange_weak(&self, c: $t, n: $t, s: Ordering, f: Ordering) -> Result<$t, $t> {
+                self.point();
+                self.inner.compare_exchange(c, n, s, f)
+            }
+            pub fn fetch_update<F: FnMut($t) -> Option<$t>>(&self, s: Ordering, f: Ordering, g: F) -> Result<$t, $t> {
+                self.point();
+                self.inner.fetch_update(s, f, g)
+            }
+            pub fn into_inner(self) -> $t {
+                self.inner.into_inner()
+            }
+            pub fn peek(&self) -> $t {
+                self.inner.load(Ordering::SeqCst)
+            }
+        }
+    };
+}
+
+macro_rules! shim_atomic_int {
+    ($name:ident, $t:ty) => {
+        shim_atomic!($name, $t);
+        impl $name {
+            pub fn fetch_add(&self, v: $t, o: Ordering) -> $t {
+                self.point();
+                self.inner.fetch_add(v, o)
+            }
+            pub fn fetch_sub(&self, v: $t, o: Ordering) -> $t {
+                self.point();
+                self.inner.fetch_sub(v, o)
+            }
+            pub fn fetch_max(&self, v: $t, o: Ordering) -> $t {
+                self.point();
+                self.inner.fetch_max(v, o)
+            }
+            pub fn fetch_min(&self, v: $t, o: Ordering) -> $t {
+                self.point();
+                self.inner.fetch_min(v, o)
+            }
+            pub fn fetch_and(&self, v: $t, o: Ordering) -> $t {
+                self.point();
+                self.inner.fetch_and(v, o)
+            }
+            pub fn fetch_or(&self, v: $t, o: Ordering) -> $t {
+                self.point();
+                self.inner.fetch_or(v, o)
+            }
+        }
+    };
+}
+
+shim_atomic_int!(AtomicUsize, usize);
+shim_atomic_int!(AtomicU32, u32);
+shim_atomic_int!(AtomicI64, i64);
+shim_atomic_int!(AtomicIsize, isize);
+shim_atomic_int!(AtomicI32, i32);
+shim_atomic!(AtomicBool, bool);
+
+impl AtomicBool {
+    pub fn fetch_and(&self, v: bool, o: Ordering) -> bool {
+        self.point();
+        self.inner.fetch_and(v, o)
+    }
+    pub fn fetch_or(&self, v: bool, o: Ordering) -> bool {
+        self.point();
+        self.inner.fetch_or(v, o)
     }
 }
